@@ -1,7 +1,7 @@
 (* One entry point for the correspondence check: a request (an S-expression naming a stage and its input) is
    decoded, run through the model, and the observable encoded back.  Used extracted (driver/) and inside Coq. *)
 From Coq Require Import List String Ascii Bool NArith ZArith.
-From Yae Require Import Base.Sexp Model.Ty Gen.Generated Model.Unify Model.Lexer Model.Literal Model.Cst Model.Pratt Model.Desugar Model.Check Model.Num Model.Val Model.Render Model.Builtins Model.Eval Model.VM Model.Verifier Model.Sql.
+From Yae Require Import Base.Sexp Model.Ty Gen.Generated Model.Unify Model.Lexer Model.Literal Model.Cst Model.Pratt Model.Desugar Model.Check Model.Num Model.Val Model.Render Model.Builtins Model.Eval Model.VM Model.Verifier Model.Sql Model.Debug.
 Import ListNotations.
 Open Scope string_scope.
 
@@ -312,6 +312,26 @@ Definition run_sql (args : list sexp) : sexp :=
   | _ => bad
   end.
 
+(* (debugsrc history tenv venv oracles src): outcome, recorded (value, column) entries, rendered report *)
+Definition run_debugsrc (args : list sexp) : sexp :=
+  match args with
+  | [h; te; ve; orc; src] =>
+      match dec_fenv h, dec_tenv te, dec_venv ve, dec_oracles orc, dNs src with
+      | Some fe, Some te', Some ve', Some orc', Some src' =>
+          match compile_src fe te' src' with
+          | None => L [A "compile-error"]
+          | Some (a, _) =>
+              let '(t, raw, o) := deval ops orc' fe ve' 5000 a in
+              let recs := rec_all raw in
+              L [enc_outcome (t, o);
+                 L (map (fun e => L [enc_val (canon_val sort_entries (fst e)); eZ (snd e)]) recs);
+                 eNs (report ops src' recs)]
+          end
+      | _, _, _, _, _ => bad
+      end
+  | _ => bad
+  end.
+
 Definition dispatch (req : sexp) : sexp :=
   match req with
   | L (A tag :: args) =>
@@ -336,6 +356,7 @@ Definition dispatch (req : sexp) : sexp :=
       else if tag =? "bytecode" then run_bytecode args
       else if tag =? "verify" then run_verify args
       else if tag =? "sql" then run_sql args
+      else if tag =? "debugsrc" then run_debugsrc args
       else bad
   | _ => bad
   end.
